@@ -99,6 +99,16 @@ def load_known():
         return json.load(fh)["findings"]
 
 
+def evidence_dir(root):
+    """Evidence of the registered commands (root /repo) lives in /verif/evidence; runs against scratch copies must not overwrite it."""
+    if os.path.realpath(root) == os.path.realpath("/repo"):
+        return EVID
+    if os.environ.get("SA_EVIDENCE_DIR"):
+        return os.environ["SA_EVIDENCE_DIR"]
+    import tempfile
+    return os.path.join(tempfile.gettempdir(), "verif-evidence-" + hashlib.sha1(os.path.realpath(root).encode()).hexdigest()[:10])
+
+
 def run_property(prop, tier="quick", root="/repo", replay=None, quiet=False):
     t0 = time.time()
     out = []
@@ -168,7 +178,7 @@ def run_property(prop, tier="quick", root="/repo", replay=None, quiet=False):
 
     for o in listed:
         say("KNOWN-FINDING: property=%s %s %s: %s [%s]" % (prop, o.rule, o.where, o.what, o.loc))
-    replay_dir = os.path.join(EVID, "replay")
+    replay_dir = os.path.join(evidence_dir(root), "replay")
     for o in new:
         os.makedirs(replay_dir, exist_ok=True)
         h = hashlib.sha1(repr(o.ident()).encode()).hexdigest()[:10]
@@ -210,6 +220,7 @@ class _EmptyCtx(Ctx):
 
 
 def write_evidence(prop, tier, ctx, meta, new, listed, wall, status):
+    EVID = evidence_dir(ctx.root)
     os.makedirs(EVID, exist_ok=True)
     obs = ctx.obligations
     ok = [o for o in obs if o.ok]
